@@ -266,7 +266,12 @@ func checkC08(tier string) *Report {
 		m := pm.(pauseModel)
 		want, _, resync := m.predict(w, op.Msg)
 		got := res.Succeeded()
-		replay := func() []byte { return mustJSON(map[string]any{"ops": append(n.Ops(alpha), op)}) }
+		replay := func() []byte {
+			if resync {
+				return mustJSON(map[string]any{"ops": append(n.Ops(alpha), op)})
+			}
+			return mustJSON(map[string]any{"ops": append(n.Ops(alpha), op), "expect": []replayExpect{{Kind: "last_success", Want: want}, {Kind: "no_panic", Want: true}}})
+		}
 		sig := strings.Join(append(pathLabels(alpha, n.Path), op.Label), " ; ")
 		if res.Msg != nil && res.Msg.Panic != "" {
 			rep.Violate(Violation{Kind: "admin-panic", What: "admin message panicked: " + res.Msg.Panic + " after " + sig, Sig: sig, Replay: replay()})
@@ -368,11 +373,11 @@ func checkC08(tier string) *Report {
 				pkt := NewPkt("channel-0", denomUSDC, "1000", w.Orb.String(), Memo(d.Fwd(w), fee))
 				b := Branch(ctx)
 				pre := w.StateKey(b)
+				shouldRun := !m.P[d.Proto] && !m.CC[d.Proto+"|"+d.CP]
 				r := w.Recv(b, pkt)
 				rep.Count("probes", 1)
-				shouldRun := !m.P[d.Proto] && !m.CC[d.Proto+"|"+d.CP]
 				psig := sigBase + " ; probe " + d.Proto + ":" + d.CP
-				replay := mustJSON(map[string]any{"ops": append(n.Ops(alpha), Op{Label: "probe", Pkt: &pkt})})
+				replay := mustJSON(map[string]any{"ops": append(n.Ops(alpha), Op{Label: "probe", Pkt: &pkt}), "expect": []replayExpect{{Kind: "last_success", Want: shouldRun}, {Kind: "no_panic", Want: true}}})
 				if r.Panic != "" {
 					rep.Violate(Violation{Kind: "probe-panic", Sig: psig, Replay: replay, What: "probe panicked: " + r.Panic})
 					continue
